@@ -327,7 +327,7 @@ func runOnce(c Case, ev *pbt.Ev) error {
 }
 
 func TestProp_Manager(t *testing.T) {
-	pbt.Run(t, pbt.Options{Prop: "C13", Name: "Manager", Quick: 30000, Thorough: 600000, Timeout: 60 * time.Second,
+	pbt.Run(t, pbt.Options{Prop: "C13", Name: "Manager", Quick: 30000, Thorough: 240000, Timeout: 60 * time.Second,
 		Rule: "rapid: manager(concurrency 1-3, silence 0-5ms) x 1-6 concurrently invoked tasks whose executions run 0-3ms, optionally until cancelled, and return 0-4ms late after cancellation x 0-3 goroutines doing 1-3 prioritized begin/end pairs with generated delays; " +
 			"oracle over the run: bodies running <= concurrency, executions of one task never overlap, none running when the invocation returns, a body running at a prioritized begin gets cancelled, and (via trace points inside the manager's mutex) no start decision while a prioritized task is in progress or finished less than the silence period ago (lower bounds only); all invocations return (watchdog). " +
 			"non-trivial = a prioritized begin arrived while a body was running and a cancelled body reacted late",
